@@ -50,3 +50,35 @@ Definition code2 (b : byte) : option N :=
   if (b =? 67) || (b =? 99) then Some 1 else
   if (b =? 71) || (b =? 103) then Some 2 else
   if (b =? 84) || (b =? 116) then Some 3 else None.
+
+(* ---- C12: reverse complement, canonical k-mers --------------------------- *)
+Definition dna10 (s : bytes) : Prop := Forall (fun b => is_dna10 b = true) s.
+
+(* total complement: bytes outside aAcCgGtTnN are left alone (never used on them) *)
+Definition complb (b : byte) : byte := match compl b with Some c => c | None => b end.
+
+(* the reversed, base-wise complemented copy *)
+Definition rcseq (s : bytes) : bytes := rev (map complb s).
+
+Definition is_lower (b : byte) : bool := (97 <=? b) && (b <=? 122).
+
+(* s[i:i+k] *)
+Definition window (s : bytes) (i k : nat) : bytes := firstn k (skipn i s).
+
+(* the lexicographically smaller of two strings (the first one on a tie) *)
+Definition lexmin (a b : bytes) : bytes := match bcompare a b with Gt => b | _ => a end.
+
+(* ---- C13: 2-bit packing -------------------------------------------------- *)
+(* first base in the most significant bits *)
+Definition pack4 (a b c d : N) : N := 64 * a + 16 * b + 4 * c + d.
+
+(* the 2-bit code of base i of s; 0 where there is no base *)
+Definition code_at (s : bytes) (i : nat) : N :=
+  match nth_error s i with
+  | Some b => match code2 b with Some c => c | None => 0 end
+  | None => 0
+  end.
+
+(* A C G T for 0 1 2 3 *)
+Definition base_of (c : N) : byte :=
+  if c =? 0 then 65 else if c =? 1 then 67 else if c =? 2 then 71 else 84.
